@@ -113,24 +113,164 @@ let parse_op toks : op option =
   | ["IA"; sid] -> Some (IA (nd sid))
   | _ -> None
 
+let split_segs_ref line = Str.split (Str.regexp_string " ; ") line
+
+(* ------------------------------------------------------------------ stage B glue (internal/ipoe component)
+   A component-level event is mapped to the model ops it amounts to, following the gate logic of
+   handleDiscover / handleRequest / handleAAAResponse / onSessionCreated / handleRelease /
+   handleSubscriberTerminate.  Declared subscriber k uses model session k+100*incarnation. *)
+type gate = { mutable exists : bool; mutable approved : bool; mutable inflight : bool; mutable created : bool;
+              mutable pend_d : bool; mutable pend_q : bool; mutable inc : int; mutable queued : bool;
+              mutable args : (n * n option * n option) }
+let new_gate () = { exists = false; approved = false; inflight = false; created = false; pend_d = false;
+                    pend_q = false; inc = -1; queued = false; args = (N0, None, None) }
+
+let parse_cfg_b toks =
+  let pools = ref [] and groups = ref [] and sess = ref [] and queue = ref false in
+  let rec go = function
+    | "V" :: m :: r -> queue := (m = "queue"); go r
+    | "P4" :: key :: prof :: vrf :: lo :: hi :: ex :: r ->
+      let excl = if ex = "-" then [] else List.map nd (String.split_on_char ',' ex) in
+      pools := new_pool F4 (nd key) (nd prof) (nd vrf) (GRange (nd lo, nd hi, excl)) :: !pools; go r
+    | "G" :: gid :: p4 :: p6 :: r -> groups := (gid, (opt_tok nd p4, opt_tok nd p6)) :: !groups; go r
+    | "S" :: sid :: _ :: gid :: mac :: r -> sess := (sid, gid, mac) :: !sess; go r
+    | [] -> ()
+    | t :: _ -> failwith ("bad cfg token " ^ t) in
+  go toks;
+  let ss = List.concat (List.rev_map (fun (sid, gid, mac) ->
+      let (p4, p6) = try List.assoc gid !groups with Not_found -> (None, None) in
+      List.map (fun i -> new_sess (n_of_int (int_of_string sid + 100 * i)) false p4 p6 (nd mac)) [0; 1; 2; 3; 4; 5]) !sess) in
+  (init_state (List.rev !pools) ss, !queue, List.rev_map (fun (sid, _, _) -> sid) !sess)
+
+let find_model_sess (st : state) sid = List.find_opt (fun s -> s.s_id = sid) st.st_sess
+
+(* all candidate paths of a list of (model op, reply kind): returns (state, reply tokens) list *)
+let rec run_ops variant (st : state) ops : (state * string list) list =
+  match ops with
+  | [] -> [(st, [])]
+  | (o, kind) :: rest ->
+    List.concat_map (fun (st', ot) ->
+        let tok = match ot with
+          | OId (_, IdTold x, _) -> [kind ^ ":" ^ dn x]
+          | OId (_, IdPanic, _) -> ["panic"]
+          | _ -> [] in
+        List.map (fun (s2, toks) -> (s2, tok @ toks)) (run_ops variant st' rest)) (step variant st o)
+
+let run_case_b variant line isegs =
+  let parts = split_segs_ref line in
+  let cfg = tokens (List.hd parts) in
+  let (st0, queue, _) = parse_cfg_b (List.tl cfg) in
+  let gates : (string, gate) Hashtbl.t = Hashtbl.create 8 in
+  let gate k = match Hashtbl.find_opt gates k with Some g -> g | None -> let g = new_gate () in Hashtbl.add gates k g; g in
+  let vq : string list ref = ref [] in
+  let st = ref st0 in
+  let snapb s = snap s ^ " | " ^ psnap s in
+  let res = ref ["init | " ^ snapb st0] in
+  let idx = ref 1 in
+  let cur_sid k g = n_of_int (int_of_string k + 100 * (max g.inc 0)) in
+  let idop k g isreq = let (vrf, s4, o4) = g.args in ID (isreq, cur_sid k g, vrf, s4, o4) in
+  let fresh g = g.exists <- true; g.inc <- g.inc + 1; g.approved <- false; g.inflight <- false;
+    g.created <- false; g.pend_d <- false; g.pend_q <- false; g.queued <- false; g.args <- (N0, None, None) in
+  List.iter (fun otxt ->
+    let f = tokens otxt in
+    if f <> [] then begin
+      (* returns (tag, model ops, aaa count, show_rec, subscriber) or skip *)
+      let plan : (string * (op * string) list * int * (string * gate) option) option =
+        match f with
+        | "BC" :: rest ->
+          let q = if rest = ["rev"] then List.rev !vq else !vq in
+          vq := [];
+          let ops = List.concat_map (fun k -> let g = gate k in
+              g.queued <- false; g.created <- true;
+              let pd = g.pend_d and pq = g.pend_q in g.pend_d <- false; g.pend_q <- false;
+              (if pd then [(idop k g false, "offer")] else []) @ (if pq then [(idop k g (not variant.d6), "ack")] else [])) q in
+          Some ("bc", ops, -1, None)
+        | ["BD"; k] ->
+          let g = gate k in
+          if not g.exists then fresh g;
+          g.pend_d <- true;
+          if g.approved && g.created then Some ("bd", [(idop k g false, "offer")], 0, Some (k, g))
+          else if g.approved || g.inflight then Some ("bd", [], 0, Some (k, g))
+          else (g.inflight <- true; Some ("bd", [], 1, Some (k, g)))
+        | ["BQ"; k] ->
+          let g = gate k in
+          if not g.exists then fresh g;
+          g.pend_q <- true;
+          if g.approved then Some ("bq", [(idop k g true, "ack")], 0, Some (k, g))
+          else if g.inflight then Some ("bq", [], 0, Some (k, g))
+          else (g.inflight <- true; Some ("bq", [], 1, Some (k, g)))
+        | "BA" :: k :: vrf :: s4 :: o4 :: [] ->
+          let g = gate k in
+          if not (g.exists && g.inflight) then None else begin
+            g.approved <- true; g.inflight <- false; g.args <- (nd vrf, opt_tok nd s4, opt_tok nd o4);
+            let pd = g.pend_d and pq = g.pend_q in g.pend_d <- false; g.pend_q <- false;
+            if not g.created && not g.queued then (if queue then (g.queued <- true; vq := !vq @ [k]) else g.created <- true);
+            Some ("ba", (if pd then [(idop k g false, "offer")] else []) @ (if pq then [(idop k g (not variant.d6), "ack")] else []), 0, Some (k, g))
+          end
+        | ["BJ"; k] ->
+          let g = gate k in
+          if not (g.exists && g.inflight) then None else (g.exists <- false; g.inflight <- false; Some ("bj", [], 0, Some (k, g)))
+        | ["BR"; k; ci] ->
+          let g = gate k in
+          if not g.exists then Some ("br", [], 0, Some (k, g)) else begin
+            let b4 = match find_model_sess !st (cur_sid k g) with Some s -> s.s_b4 | None -> None in
+            let ciaddr = if ci = "self" then (match b4 with Some a -> a | None -> N0) else nd ci in
+            match b4 with
+            | Some a when a <> ciaddr -> Some ("br", [], 0, Some (k, g))
+            | _ -> let o = IR (cur_sid k g) in g.exists <- false; Some ("br", [(o, "")], 0, Some (k, g))
+          end
+        | ["BT"; k] ->
+          let g = gate k in
+          if not g.exists then None else (let o = IT (cur_sid k g) in g.exists <- false; Some ("bt", [(o, "")], 0, Some (k, g)))
+        | ["BX"; k] -> let g = gate k in Some ("bx", [(IA (cur_sid k g), "")], 0, Some (k, g))
+        | _ -> None in
+      (match plan with
+       | None -> res := ("skip | " ^ snapb !st) :: !res
+       | Some (tag, ops, aaa, sub) ->
+         let render (s', toks) =
+           let replies = String.concat "," (toks @ ["."]) in
+           let head = if aaa < 0 then tag ^ " " ^ replies else
+               let recs = match sub with
+                 | Some (k, g) when g.exists ->
+                   (match find_model_sess s' (cur_sid k g) with Some s -> show_addr s.s_b4 | None -> "nil")
+                 | _ -> "gone" in
+               Printf.sprintf "%s %s aaa=%d rec=%s" tag replies aaa recs in
+           head ^ " | " ^ snapb s' in
+         let cands = run_ops variant !st ops in
+         let want = if !idx < Array.length isegs then Some isegs.(!idx) else None in
+         let pick = match want with
+           | Some w -> (match List.find_opt (fun c -> render c = w) cands with Some c -> c | None -> List.hd cands)
+           | None -> List.hd cands in
+         res := render pick :: !res; st := fst pick);
+      incr idx
+    end) (List.tl parts);
+  String.concat " ; " (List.rev !res)
+
 let split_segs line = Str.split (Str.regexp_string " ; ") line
 
 let () =
   let cases = read_lines Sys.argv.(1) in
   let impls = if Array.length Sys.argv > 2 && Sys.argv.(2) <> "-" then Some (read_lines Sys.argv.(2)) else None in
-  (* variant names: repaired | defective | v<d1><d2><d3><d4><d5> with 0/1 flags *)
+  (* variant names: repaired | defective | v<d1><d2><d3><d4><d5><d6> with 0/1 flags *)
   let variant =
     if Array.length Sys.argv > 3 then
       (match Sys.argv.(3) with
        | "defective" -> defective
        | "repaired" -> repaired
-       | v when String.length v = 6 && v.[0] = 'v' ->
-         { d1 = (v.[1] = '1'); d2 = (v.[2] = '1'); d3 = (v.[3] = '1'); d4 = (v.[4] = '1'); d5 = (v.[5] = '1') }
+       | v when String.length v = 7 && v.[0] = 'v' ->
+         { d1 = (v.[1] = '1'); d2 = (v.[2] = '1'); d3 = (v.[3] = '1'); d4 = (v.[4] = '1'); d5 = (v.[5] = '1');
+           d6 = (v.[6] = '1') }
        | _ -> repaired)
     else repaired in
   List.iteri (fun idx line ->
     if String.trim line = "" then () else
     try
+      if String.length line > 2 && String.sub line 0 2 = "B " then begin
+        let isegs = match impls with
+          | Some l -> (match List.nth_opt l idx with Some il -> Array.of_list (split_segs il) | None -> [||])
+          | None -> [||] in
+        print_endline (run_case_b variant line isegs)
+      end else
       let parts = split_segs line in
       let st0 = parse_cfg (tokens (List.hd parts)) in
       let isegs = match impls with
